@@ -366,6 +366,10 @@ func findPQ(p *Prog) *pqAnchors {
 			a.recovery = fn
 		}
 	}
+	if a.recovery == nil {
+		// the re-enqueue (or the delete batch) was moved into a helper of the recovery
+		a.recovery = recoveryViaHelpersA1(a)
+	}
 	for _, fn := range a.methods {
 		if len(callsNamed(fn, func(f *types.Func) bool { return isFunc(f, pkgExperr, "IsShutdownErr") })) > 0 {
 			a.complete = fn
@@ -659,7 +663,11 @@ func runC01(c *Ctx) {
 		c.Anchor("recovery method (deletes item bodies and calls enqueue)")
 	} else {
 		fn := a.recovery
-		enq := callsTo(fn, funcObj(a.enqueue))
+		// the (re-)enqueue calls: of the enqueue method itself, or of a helper that makes it
+		enq := putSitesA1(fn, a, 3)
+		for _, d := range deleteBeforeEnqueueInHelpersA1(fn, a, 3, true) {
+			c.Bad("recovery: delete batch reached through a helper in "+fnName(d.Parent()), p.Pos(d.Pos()), "item bodies are deleted (inside a helper) before they are re-enqueued: a crash after that storage call and before the last re-enqueue loses the in-flight requests")
+		}
 		for _, b := range batchCalls(fn) {
 			if b.has("Delete", "") == nil {
 				continue
@@ -721,6 +729,11 @@ func runC01(c *Ctx) {
 			}
 			if calleeOf(d) == unrefObj {
 				okDefer = d.Block() == a.complete.Blocks[0]
+			}
+			// the deferred function (method, function or closure literal) is a wrapper of the unref: it makes the
+			// call on every one of its paths, and the defer statement itself lies on every path of the completion
+			if cf := helperCalleeA1(d); cf != nil && cf != a.unref && deferredOnEveryPathA1(d) && alwaysCallsA1(cf, unrefObj, 3) {
+				okDefer = true
 			}
 			if mc, ok := d.Call.Value.(*ssa.MakeClosure); ok {
 				cf := mc.Fn.(*ssa.Function)
